@@ -97,6 +97,9 @@ def arith_cases(rng, m, ctx, full):
                 if all(mask2):
                     mask2[0] = False
                 p, pp = partner(rng, kind, T, mask2)
+                if op in ('div', 'mul', 'add') and kind in ('int', 'float') and order == 'right' and rng.random() < 0.35:
+                    p = 0 if kind == 'int' else 0.0            # zero is a number: 0 / C(t) is a perfectly defined zero
+                    pp = {'k': 'scalar', 'x': pslot(p)}
                 if op == 'pow' and kind in ('obs', 'float', 'corr'):
                     a2 = make_corr(rng, mask, positive=True)
                     if kind == 'corr':
